@@ -10,6 +10,9 @@ T = {
  "C01": ("vexec", "runtime monitoring: full read-out before Close vs after Open + reference-model oracle over generated histories",
   "Directed templates for every ordering the property singles out (write after snapshot, delete→compact, compress, nil arguments, re-add→vacuum, singles→batch, drop→re-create, import+commit, edge history, evolve/reinforce, config updates, delete cascade) on all valid metric×precision combinations plus thousands of seeded random histories with 1–6 restart cycles; at each restart the complete public read-out before Close must equal the one after Open and the reference model, and the engine must stay usable. Held on the executions observed.",
   "Trusts harness/vexec (model, Observe/Diff). Clean shutdown only; vector equality policy of DESIGN.md 2.5."),
+ "C05": ("vexec", "runtime monitoring: planted rejections + full read-out equality + reference-model oracle",
+  "Calls that must be rejected (22 classes covering every failure cause named in the property, alone and as an item of a batch/import) are planted at random positions of generated histories; a rejected call must leave the complete public read-out identical, the index usable, and — after further history and a restart — the state equal to the model in which the call never happened. Held on the executions observed.",
+  "Which calls must be rejected is predicted by harness/vexec; a call is 'rejected' iff it returns a non-nil error."),
  "C04": ("vexec", "runtime monitoring: reference-model oracle over generated operation histories",
   "Seeded random operation histories (adds, batches, imports, deletes, re-adds, merges, reinforce, evolve, graph ops, KV) interleaved with maintenance/admin ops run against the real engine; every read the property names is compared with a map-of-records reference model, and the model also predicts which calls must be accepted or rejected. Held on the executions observed, not a proof.",
   "Trusts the reference model (harness/vexec/model.go) as the reading of the property; vector equality per precision as fixed in DESIGN.md 2.4."),
